@@ -48,9 +48,13 @@ package rhp
 // ---------------------------------------------------------------------------
 // The Contractor (abstract): what a handler gets from the lock and what it may commit.
 //
+// A handler locks a contract once: the revision it commits is derived from the state that lock
+// returned, so letting go of the lock and taking it again in the middle would commit a revision
+// that ignores what happened in between.
 //@ iface Contractor.LockV2Contract
 //@   params id
 //@   assigns nothing
+//@   precall [first-lock] !mayHaveCalled("LockV2Contract")
 //@   ensures result2 == nil ==> len(result0.Roots) * rhp4.SectorSize == result0.Revision.Filesize && rhp4.MetaRoot(result0.Roots) == result0.Revision.FileMerkleRoot
 //@   borrowed result0.Roots
 //
@@ -103,6 +107,9 @@ package rhp
 //@   aftercall WriteResponse : leaked = ite(unsent == 1, 1, leaked)
 //@   ensures [commit-before-reply] leaked == 0
 //
+// Every mutator of a contract is reached under the one lock the handler took at its start (the
+// revision it commits was derived from the state that lock returned; a handler that lets go of the
+// lock in between and takes it again commits a revision that ignores what happened meanwhile).
 // In every revising handler the host's signature on the new revision leaves the host only after
 // the contractor committed that revision (unsent: signed and not yet committed; a response written
 // in that window would hand the renter a doubly signed revision the host may never record).
